@@ -585,6 +585,12 @@ func (s *State) assumeAllocated(v *Value) {
 		if sp.Kind == "tag" && sp.Iface != nil && nonNilIfaces[typeName(sp.Iface)] {
 			s.assume(Gt(l, Int(0)))
 		}
+		if sp.Kind == "tag" && sp.Iface != nil && !l.isInt() {
+			if it, ok := under(sp.Iface).(*types.Interface); ok && it.NumMethods() > 0 {
+				// by typing: a non-nil value of static interface type T has a dynamic type implementing T
+				s.assume(Or(Eq(l, Int(0)), App("implements!"+typeName(sp.Iface), SBool, l)))
+			}
+		}
 	}
 }
 
